@@ -2712,6 +2712,22 @@ impl VmGreenThread {
         }
     }
 
+    /// Read-only snapshot for verification harnesses.
+    #[cfg(feature = "verif")]
+    pub fn verif_stats(&self) -> crate::verif::ThreadStats {
+        crate::verif::ThreadStats {
+            heap_size: self.heap_size,
+            live_objects: self.heap_list.len(),
+            value_stack_len: self.value_stack.len(),
+            call_depth: self.call_stack.len(),
+            gc_state: match self.gc_state {
+                GcState::Idle => 0,
+                GcState::Marking => 1,
+                GcState::Sweeping { .. } => 2,
+            },
+        }
+    }
+
     pub fn compact(&mut self) {
         self.value_stack.shrink_to_fit();
         self.call_stack.shrink_to_fit();
